@@ -1,0 +1,101 @@
+//go:build verif
+// +build verif
+
+package band
+
+// Read-only snapshot of a band's internal tables for the /verif checks.
+// This file is only compiled with the build tag "verif"; it adds no behaviour.
+
+// VerifDataRate is a data-rate with its unexported direction flags.
+type VerifDataRate struct {
+	DataRate DataRate
+	Uplink   bool
+	Downlink bool
+}
+
+// VerifChannel is a channel with its unexported flags.
+type VerifChannel struct {
+	Channel Channel
+	Enabled bool
+	Custom  bool
+}
+
+// VerifSnapshot is a deep copy of the unexported state of a band.
+type VerifSnapshot struct {
+	SupportsExtraChannels bool
+	CFListMinDR           int
+	CFListMaxDR           int
+	DataRates             map[int]VerifDataRate
+	MaxPayloadSizePerDR   map[string]map[string]map[int]MaxPayloadSize
+	RX1DataRateTable      map[int][]int
+	UplinkChannels        []VerifChannel
+	DownlinkChannels      []VerifChannel
+	TXPowerOffsets        []int
+}
+
+func verifInner(b Band) *band {
+	switch v := b.(type) {
+	case *as923Band:
+		return &v.band
+	case *au915Band:
+		return &v.band
+	case *cn470Band:
+		return &v.band
+	case *cn779Band:
+		return &v.band
+	case *eu443Band:
+		return &v.band
+	case *eu863Band:
+		return &v.band
+	case *in865Band:
+		return &v.band
+	case *ism2400Band:
+		return &v.band
+	case *kr920Band:
+		return &v.band
+	case *ru864Band:
+		return &v.band
+	case *us902Band:
+		return &v.band
+	}
+	return nil
+}
+
+// VerifSnapshotOf returns a deep copy of the internal tables of b (false for an unknown Band implementation).
+func VerifSnapshotOf(b Band) (VerifSnapshot, bool) {
+	in := verifInner(b)
+	if in == nil {
+		return VerifSnapshot{}, false
+	}
+	s := VerifSnapshot{
+		SupportsExtraChannels: in.supportsExtraChannels,
+		CFListMinDR:           in.cFListMinDR,
+		CFListMaxDR:           in.cFListMaxDR,
+		DataRates:             map[int]VerifDataRate{},
+		MaxPayloadSizePerDR:   map[string]map[string]map[int]MaxPayloadSize{},
+		RX1DataRateTable:      map[int][]int{},
+		TXPowerOffsets:        append([]int{}, in.txPowerOffsets...),
+	}
+	for k, v := range in.dataRates {
+		s.DataRates[k] = VerifDataRate{DataRate: v, Uplink: v.uplink, Downlink: v.downlink}
+	}
+	for ver, m := range in.maxPayloadSizePerDR {
+		s.MaxPayloadSizePerDR[ver] = map[string]map[int]MaxPayloadSize{}
+		for rev, drs := range m {
+			s.MaxPayloadSizePerDR[ver][rev] = map[int]MaxPayloadSize{}
+			for dr, ps := range drs {
+				s.MaxPayloadSizePerDR[ver][rev][dr] = ps
+			}
+		}
+	}
+	for k, v := range in.rx1DataRateTable {
+		s.RX1DataRateTable[k] = append([]int{}, v...)
+	}
+	for _, c := range in.uplinkChannels {
+		s.UplinkChannels = append(s.UplinkChannels, VerifChannel{Channel: c, Enabled: c.enabled, Custom: c.custom})
+	}
+	for _, c := range in.downlinkChannels {
+		s.DownlinkChannels = append(s.DownlinkChannels, VerifChannel{Channel: c, Enabled: c.enabled, Custom: c.custom})
+	}
+	return s, true
+}
